@@ -659,6 +659,10 @@ func c7checkItem(it *cItem, stmtOnly bool, res *c7result) (problems []string, co
 	} else {
 		first = m.Eval(goat.FS(it.Files), it.EvalSrc, goatlang.WithCodeDump(&dump))
 	}
+	if !strings.HasPrefix(it.Name, "test-") && first.Failed() && !first.Budget {
+		// the generators only emit valid programs: one that does not load would silently drop out of the exploration
+		return []string{"generated corpus item does not load or run: " + first.String()}, 0
+	}
 	if dump.Len() == 0 {
 		return nil, 0 // did not compile: nothing to explore
 	}
@@ -777,6 +781,7 @@ func c07corpus(r *report.Run) ([]cItem, []bool) {
 	}
 	add(corpusCalls(), true)
 	add(corpusFusion(), true)
+	add(corpusWide(cWideWidths(thorough)), true)
 	maxN6, fl6, maxN8, d11, f12 := 4, 2, 4, 3, 24
 	if thorough {
 		maxN6, fl6, maxN8, d11, f12 = 5, 3, 5, 3, 64
@@ -790,7 +795,7 @@ func c07corpus(r *report.Run) ([]cItem, []bool) {
 }
 
 func c07run(r *report.Run) {
-	r.Rule("abstract states (function, pc, operand-stack depth above the locals) of every function of every corpus program - call-in-every-position enumeration (64 statement forms with calls of 0/1/2 results and blanks x 6 neighbourhoods), fusion-window programs, C04 forms, C06, C08, C11, C12 corpora and the Go-statement inputs of the repository's test tables - compiled with the optimizer off and on; ALL paths explored; invariants I1 (one depth per pc), I2 (never pops into locals), I3 (branches stay inside the function, never into a nested header/body), I4 (RETURN n at depth n = declared results; body ends at depth 0), I5 (slot operands below the FUNC slot count), I7 (no placeholder survives), I8 (statement-only top level ends at depth 0 / Eval returns nothing); non-trivial = function with at least one branch")
+	r.Rule("abstract states (function, pc, operand-stack depth above the locals) of every function of every corpus program - call-in-every-position enumeration (64 statement forms with calls of 0/1/2 results and blanks x 6 neighbourhoods), fusion-window programs, wide-frame programs (10 statement groups behind 120..300 locals, entered directly and from a caller with as many live locals), C04 forms, C06, C08, C11, C12 corpora and the Go-statement inputs of the repository's test tables - compiled with the optimizer off and on; ALL paths explored; invariants I1 (one depth per pc), I2 (never pops into locals), I3 (branches stay inside the function, never into a nested header/body), I4 (RETURN n at depth n = declared results; body ends at depth 0), I5 (slot operands below the FUNC slot count), I7 (no placeholder survives), I8 (statement-only top level ends at depth 0 / Eval returns nothing); non-trivial = function with at least one branch")
 	r.Assume("opcode table (pops/pushes/successors) read off do.go, validated on every run by replaying the real VM's trace: each executed (pc, depth) must be an abstract state with the same depth", "the instruction list is read from the public WithCodeDump output")
 	items, stmtOnly := c07corpus(r)
 	r.Set("corpus_items", len(items))
